@@ -520,7 +520,58 @@ func isCRLFWrite(s core.Site) bool {
 	case "(*pkg/redis/client/proto.Writer).crlf":
 		return true
 	}
+	// a helper of the package that writes CRLF and nothing else
+	if h := s.Callee; h != nil && len(h.Blocks) > 0 && core.Transparent != nil && core.Transparent(h) {
+		n := 0
+		for _, hs := range core.Sites(h, false) {
+			if hs.Instr.Parent() != h {
+				continue
+			}
+			if strings.HasPrefix(hs.Name, "(*bufio.Writer).Write") {
+				if !isCRLFWrite(hs) {
+					return false
+				}
+				n++
+			}
+		}
+		return n == 1
+	}
 	return false
+}
+
+// forwardedArg: s calls target directly (the argument at idx), or a wrapper of the package that hands
+// one of its parameters (converted or not) on to target at idx — then the argument the wrapper got.
+func forwardedArg(s core.Site, target string, idx int) ssa.Value {
+	if s.Name == target {
+		if a := s.Args(); idx < len(a) {
+			return a[idx]
+		}
+		return nil
+	}
+	h := s.Callee
+	if h == nil || len(h.Blocks) == 0 || core.Transparent == nil || !core.Transparent(h) {
+		return nil
+	}
+	var inner []core.Site
+	for _, hs := range core.Sites(h, false) {
+		if hs.Name == target && hs.Instr.Parent() == h {
+			inner = append(inner, hs)
+		}
+	}
+	if len(inner) != 1 || idx >= len(inner[0].Args()) {
+		return nil
+	}
+	v := core.Unwrap(inner[0].Args()[idx])
+	if cv, ok := v.(*ssa.Convert); ok {
+		v = core.Unwrap(cv.X)
+	}
+	args := s.Common().Args
+	for k, hp := range h.Params {
+		if ssa.Value(hp) == v && k < len(args) {
+			return args[k]
+		}
+	}
+	return nil
 }
 
 func ruleEncoders(w *core.World, r *core.Report) {
@@ -623,11 +674,11 @@ func ruleEncoders(w *core.World, r *core.Report) {
 				}
 				if rm, ok := y.(*ssa.BinOp); ok && constIs(x, '0') && rm.Op == token.REM && constIs(rm.Y, 10) {
 					// the digit store must execute at least once before the write: it dominates it
-					okDigit = wr.Instr != nil && core.Dominates(st, wr.Instr)
+					okDigit = okDigit || (wr.Instr != nil && core.Dominates(st, wr.Instr))
 				}
 			}
 			if v == ssa.Value(f.Params[1]) {
-				okPrefix = wr.Instr != nil && core.Dominates(st, wr.Instr)
+				okPrefix = okPrefix || (wr.Instr != nil && core.Dominates(st, wr.Instr))
 			}
 			if constIs(v, '\r') || constIs(v, '\n') {
 				okCRLF++
@@ -665,7 +716,8 @@ func ruleEncoders(w *core.World, r *core.Report) {
 		b := ssa.Value(f.Params[1])
 		msg := orderedSteps(f, []encStep{
 			{"length of the same bytes", func(s core.Site) bool {
-				return s.Name == "(*pkg/redis/client.encoder).encodeInt" && isLenOfVal(s.Args()[0], b)
+				a := forwardedArg(s, "(*pkg/redis/client.encoder).encodeInt", 0)
+				return a != nil && isLenOfVal(a, b)
 			}},
 			{"the bytes", func(s core.Site) bool { return s.Name == "(*bufio.Writer).Write" && core.Unwrap(s.Args()[0]) == b }},
 			{"CRLF", isCRLFWrite},
